@@ -40,11 +40,7 @@ def _clean_ttrace():
             pass
 
 
-def signature(lines, rel, info):
-    return None
-
-
-def run_programs(ctx, exe, progs, tag, chunk=1200):
+def run_programs(ctx, exe, progs, tag, chunk=None):
     """Execute the programs on the real code, validate every trace. Returns True when all were accepted."""
     if not progs:
         return True
@@ -55,6 +51,8 @@ def run_programs(ctx, exe, progs, tag, chunk=1200):
         with lock:
             return orig_meta()
     ctx.metadir = locked_meta
+    if chunk is None:           # one chunk (= one TLC start) per worker, but not absurdly small or large
+        chunk = min(4000, max(300, -(-len(progs) // max(1, vlib.NCPU))))
     chunks = [progs[i:i + chunk] for i in range(0, len(progs), chunk)]
 
     def one(i):
@@ -64,8 +62,7 @@ def run_programs(ctx, exe, progs, tag, chunk=1200):
                 f.write(json.dumps(p) + "\n")
         tr = ctx.tmp("%s-%d.ndjson" % (tag, i))
         ok, n = vlib.record_and_validate(ctx, exe, ["run", sp, tr], tr, SPEC, "Trace_Coroutine.tla", "Trace_Coroutine.cfg",
-                                         "%s: %d programs on the real scheduler (chunk %d/%d)" % (tag, len(chunks[i]), i + 1, len(chunks)),
-                                         signature_fn=signature)
+                                         "%s: %d programs on the real scheduler (chunk %d/%d)" % (tag, len(chunks[i]), i + 1, len(chunks)))
         return ok
     try:
         with cf.ThreadPoolExecutor(max_workers=max(1, vlib.NCPU)) as ex:
@@ -205,27 +202,29 @@ def run(ctx):
             ctx.tlc_mc(SPEC, "MC_Coroutine.tla", write_cfg(name, programs, emit=False, **kw), expect=inv, coverage=False, timeout=600)
         # ... and the intended one satisfies it for EVERY program of the bounded families (exhaustive); the same run prints
         # the programs, which are then executed on the real code
-        allprogs = []
+        nprog = 0
         for i, (name, programs, seminit, clogic) in enumerate(fams):
             r, out = ctx.tlc_mc(SPEC, "MC_Coroutine.tla", write_cfg(name, programs, seminit, clogic), coverage=(i == 0),
                                 required_actions=INV_ACTIONS if i == 0 else (), timeout=3000)
             progs = parse_programs(out)
+            del out
             if not progs:
                 raise vlib.Infra("no programs printed by " + name)
             ctx.notes.append("%s: %d programs, all executed on the real code" % (programs, len(progs)))
-            allprogs += progs
+            if i == 0:
+                ctx.sample({"kind": "program of the bounded model executed on the real scheduler", "program": progs[len(progs) // 2]})
+            # 2. spec -> code: every program of the family on the real Scheduler / primitives
+            if run_programs(ctx, exe, progs, programs):
+                ctx.replays_ok += len(progs)
+                ctx.traces_ok -= len(progs)
+            nprog += len(progs)
         ctx.exhaustive = True
-        ctx.sample({"kind": "program of the bounded model executed on the real scheduler", "program": allprogs[len(allprogs) // 2]})
-        # 2. spec -> code: every program of the families on the real Scheduler / primitives
-        if run_programs(ctx, exe, allprogs, "gen"):
-            ctx.replays_ok += len(allprogs)
-            ctx.traces_ok -= len(allprogs)
         # 3. code -> spec: seeded random larger programs
         rnd = random.Random(ctx.seed * 7919 + 18)
         n = 1500 if ctx.quick() else 40000
         rp = [random_program(rnd) for _ in range(n)]
         ctx.sample({"kind": "random program (8 routines, <= 30 steps)", "program": rp[0]})
-        run_programs(ctx, exe, rp, "random", chunk=250)
+        run_programs(ctx, exe, rp, "random", chunk=min(1000, max(100, -(-n // max(1, vlib.NCPU)))))
     finally:
         _clean_ttrace()
     ctx.assumptions = [
